@@ -284,6 +284,34 @@ def run(ctx):
         rs.lineno,
     )
 
+    # ---- C03.8 a reused *failed* call brings its recorded subtree set along -----------------------------------
+    # The reject finaliser reuses the call node of an equivalent failed call (`if job.call_hash:`: a same-execution hit or a job collapsed onto
+    # a failing twin).  No child job ran under this job, so calc_subtree_tasks() is {own task}; the tasks that ran beneath the recorded call
+    # must come from the backend, as on the cached arm of the resolve finaliser -- otherwise a shallow ancestor that catches the error
+    # records an incomplete set and replays a stale result after one of those tasks is edited.
+    r8 = ctx.rule("C03.8", "the reject finaliser takes the subtree set of a reused failed call from the backend record", floor=1)
+    rj8 = m.func("Scheduler._reject_job_main_thread")
+    jv8 = rj8.args.args[1].arg
+    cfg8 = CFG(rj8)
+    tests8 = [n for n in cfg8.nodes if n.kind == "test" and isinstance(n.ast, ast.expr) and src(n.ast) == f"{jv8}.call_hash"]
+    if not tests8:
+        raise AnalysisError("reject finaliser: `if job.call_hash:` arm not found", "Scheduler._reject_job_main_thread")
+    maint8 = {
+        n
+        for n in cfg8.nodes
+        if n.kind == "stmt" and isinstance(n.ast, ast.Assign) and any(src(t) == f"{jv8}.subtree_tasks" for t in n.ast.targets) and "_get_subtree_tasks" in src(n.ast.value)
+    }
+    ends8 = [cfg8.node_of(c) for c in calls_in(rj8, shallow=True) if call_name(c) == f"{jv8}.reject"]
+    ok8 = bool(ends8) and bool(maint8) and all(cfg8.must_pass(e, maint8, targets=ends8) for t in tests8 for e in cfg8.edge_nodes(t, "T"))
+    r8.check(
+        ok8,
+        f"{m.rel}:Scheduler._reject_job_main_thread:reused-failed-call-subtree",
+        "on the arm that reuses the call node of an equivalent failed call the job keeps calc_subtree_tasks() = {own task}: with Q(x) = catch(F(x), ..) run first and a shallow "
+        "P(x) = catch(F(x), ..) hitting the failed F(x) in the same execution, P is recorded without the tasks that ran beneath F, and after one of them is edited P is replayed",
+        m.rel,
+        rj8.lineno,
+    )
+
 
 def marker_rows_in_final_transaction(rule, repo, nonempty_ok=None):
     """A CallNode writer that is not atomic relies on the reader's `recorded set is non-empty` test to tell an interrupted recording from a
